@@ -30,20 +30,25 @@ MANIFEST = dict(
          "access, get and first return the tree unchanged (C04_pure_partial), get and first return normally unless the model "
          "itself gives OutOfFuel/Unsupported (C04_get_total_partial), and item access raises only "
          "KeyError/IndexError/ValueError/TypeError/SyntaxError, nothing at all for a '?' path (C04_getitem_errclass_partial). "
-         "(3) Full-strength statements kept visible and refuted on the pinned tree: C04_get_total_stmt, C04_pure_stmt, with "
-         "counter-example theorems for a new() step (C04_new_writes_cex, C04_new_keyerror_cex = known finding C04-a) and for a "
-         "dict key literally named '*' (C04_star_key_diverges_cex: get('*/x') runs out of fuel for every fuel; the implementation "
-         "raises RecursionError = finding C04-d). "
+         "(2b) After fix C04-a (the new() step of _find writes nothing and raises no KeyError; the model follows the patched "
+         "code) the safety predicate of the proofs lost its clause about 'new()', the always-true predicate is an instance, and "
+         "the same facts hold WITHOUT Safe/SafeTree, for every path text and every tree: C04_pure (= the full purity statement "
+         "C04_pure_stmt, proved), C04_pure_all (item access, get, first), C04_findD_pure, C04_get_total_any_partial, "
+         "C04_getitem_errclass_any_partial; the former counter-examples are positive instances (C04_new_no_write, "
+         "C04_new_root_is_miss). "
+         "(3) Full-strength statement kept visible and refuted: C04_get_total_stmt, by a dict key literally named '*' "
+         "(C04_star_key_diverges_cex: get('*/x') runs out of fuel for every fuel; the implementation raises RecursionError = "
+         "finding C04-d). "
          "Not proved: fuel adequacy (C04_fuel_enough_stmt: on plain-key trees some fuel suffices), so OutOfFuel is excluded only "
          "by the correspondence streams; inputs the model answers Unsupported for (floats in text() conditions, '%' in quoted "
-         "values, non-ASCII digits) and paths containing 'new()' are differential only. "
+         "values, non-ASCII digits) are differential only. "
          "The model of every lookup entry point (dict and list roots) is compared with the real code on token soup over the "
          "full xpath alphabet and on misses derived from real paths; the statement is executed on the implementation (no "
          "exception from get/first, default iff item access raises, only the five allowed classes from item access, tree "
          "unchanged).",
-    note="known findings: a '[new()]' step inside a lookup (KeyError escapes / a scalar is rewritten into a list); a dict key "
-         "named '*' (or '..' below a '*' step) makes get('*/x') recurse until RecursionError (trees of the harness have "
-         "plain-name keys, so the streams do not meet it).",
+    note="known finding: a dict key named '*' (or '..' below a '*' step) makes get('*/x') recurse until RecursionError (trees "
+         "of the harness have plain-name keys, so the streams do not meet it). Paths with a '[new()]' step are generated and "
+         "checked like all others since fix C04-a.",
     design_ref="5/C04",
 )
 
@@ -116,8 +121,7 @@ def derived_miss(rng, tree):
 
 
 def in_known(c, detail=None):
-    if "new()" in c["xp"].replace(" ", "").lower():
-        return "C04-a"
+    # C04-a (a new() step inside a lookup) is repaired: no open class is left for generated cases
     return None
 
 
@@ -255,6 +259,23 @@ def run(ctx):
         lambda c: "xp.get %s %s %s %s" % (c["kind"], enc_str(c["xp"]), enc_val(c["d"]), enc_val(X.convert(c["tree"], c["mode"]))),
         impl_get,
         in_known=lambda c: in_known(c),
+    )
+    # a new() step put on nodes that exist (own random stream and own streams: the cases above stay what they were).
+    # Since fix C04-a such a lookup is a miss that writes nothing; before, it converted a single value into a list.
+    rng = ctx.rng("new-steps")
+    ncases = []
+    for _ in range(ctx.budget(150, 4000)):
+        t = X.gen_plain(rng, rng.choice([1, 2, 3]), rng.choice("dddl"))
+        poss = [p for p, _ in X.positions(t) if p]
+        base = X.render(rng, t, rng.choice(poss)) if poss and rng.random() < 0.9 else ""
+        xp = rng.choice(["", "?"]) + base + "[new()]" + rng.choice(["", "", "/x", "[0]", "/..", "[new()]", "/*"])
+        ncases.append({"tree": t, "mode": rng.choice(["n0", "wrap"]), "xp": xp, "kind": rng.choice("gif"), "d": rng.choice([None, "D", 0])})
+    ctx.evaluate("lookup/new-step", ncases, check_lookup, in_known=in_known)
+    ctx.correspond(
+        "xp.get/new-step",
+        ncases,
+        lambda c: "xp.get %s %s %s %s" % (c["kind"], enc_str(c["xp"]), enc_val(c["d"]), enc_val(X.convert(c["tree"], c["mode"]))),
+        impl_get,
     )
     ctx.extra["assumptions"] = ["trees have plain-name keys; strings are built from the xpath alphabet of the property"]
     ctx.extra["distribution"] = {
